@@ -159,6 +159,57 @@ pub fn judge(src: &str, o: &mut Outcome) {
     }
 }
 
+/// The same source through the facade (`Workspace::from_string` / `parse` / `analyze`): its diagnostics are rendered
+/// against the text the caller handed in, so they must carry the locations the direct path reports for that text.
+fn judge_facade(src: &str, o: &mut Outcome) {
+    let direct = |src: &str| -> Option<Result<Vec<(String, bool, usize, usize)>, (bool, usize, usize)>> {
+        match panics::catch(|| tx3_lang::parsing::parse_string(src)).ok()? {
+            Err(e) => Some(Err(span_info(&e.span))),
+            Ok(mut program) => {
+                let rep = panics::catch(|| tx3_lang::analyzing::analyze(&mut program)).ok()?;
+                Some(Ok(rep.errors.iter().map(|e| {
+                    let (d, s, e2) = span_info(e.span());
+                    (format!("{e:?}").split('(').next().unwrap_or("?").to_string(), d, s, e2)
+                }).collect()))
+            }
+        }
+    };
+    let Some(want) = direct(src) else { return };
+    crate::engine::set_phase("facade");
+    let got = panics::catch(|| {
+        let mut ws = tx3_lang::Workspace::from_string(src.to_string());
+        match ws.parse() {
+            Err(tx3_lang::Error::Parsing(e)) => return Some(Err(span_info(&e.span))),
+            Err(_) => return None,
+            Ok(()) => {}
+        }
+        if ws.analyze().is_err() {
+            return None;
+        }
+        ws.analisis().map(|rep| {
+            Ok(rep.errors.iter().map(|e| {
+                let (d, s, e2) = span_info(e.span());
+                (format!("{e:?}").split('(').next().unwrap_or("?").to_string(), d, s, e2)
+            }).collect::<Vec<_>>())
+        })
+    });
+    match got {
+        Err(_) => o.class("facade-panic(C12)"),
+        Ok(None) => o.class("facade-other-error"),
+        Ok(Some(got)) => {
+            if got == want {
+                o.class("facade-agrees");
+            } else {
+                let kind = if want.is_err() { "parse-error" } else { "analysis-error" };
+                o.violate(Violation::new(
+                    format!("facade|{kind}|located-elsewhere-than-in-the-text-handed-in"),
+                    format!("through the facade the diagnostics are {:?}, for the same text directly {:?}", got, want),
+                ));
+            }
+        }
+    }
+}
+
 /// constructs the AST builder itself rejects (errors attached to a whole node), spread over several lines
 fn multiline_custom_errors() -> Vec<(String, String)> {
     let head = "// é 日本\nparty A;\n\ntx t(n: Int) {\n    input src {\n        from: A,\n        min_amount: Ada(n),\n    }\n";
@@ -209,7 +260,7 @@ impl Prop for C19 {
             "every source of the C12 enumeration ({}) plus a positional sweep: each of {} offending tokens inserted at every token boundary of \
              {} multi-line bases (LF with multi-byte comments; CRLF + tabs + multi-byte comments on every line); metadata strings that pass the 64-byte limit with 2-, 3- and 4-byte characters at every offset around it. Oracle: parse error => span \
              within the text the error carries, on char boundaries, every label the diagnostic hands to a renderer readable from that text, and the error renders through miette; analysis error with a real span => \
-             within the input, on char boundaries, and for not-in-scope the located text equals the name. Non-trivial = the front end reported \
+             within the input, on char boundaries, and for not-in-scope the located text equals the name; every erroneous source again between blank lines, and both forms through Workspace::parse / analyze, whose diagnostics must carry the locations the direct path gives for the text handed in. Non-trivial = the front end reported \
              at least one diagnostic that was judged; distinct = distinct sources.",
             c12::C12.bound(tier),
             OFFENDERS.len(),
@@ -275,6 +326,12 @@ impl Prop for C19 {
         judge(src, &mut o);
         if o.classes.keys().any(|k| k == "parse-error" || k == "analysis-errors") {
             o.key(hash64(src));
+            // erroneous sources also as a caller's file may look - blank lines before and after - and through the facade
+            let padded = format!("\n \n  {src}\n\n ");
+            o.evals += 2;
+            judge(&padded, &mut o);
+            judge_facade(&padded, &mut o);
+            judge_facade(src, &mut o);
         }
         o
     }
